@@ -231,7 +231,7 @@ pub fn vocab() -> &'static Vocab {
 }
 
 fn load_vocab() -> Vocab {
-    let text = std::fs::read_to_string("/repo/tools/gen/data.toml").expect("data.toml readable");
+    let text = std::fs::read_to_string(format!("{}/tools/gen/data.toml", crate::runner::repo_root())).expect("data.toml readable");
     let doc: toml::Value = text.parse().expect("data.toml parses");
     let mut units = Vec::new();
     let table: BTreeMap<&str, (&str, Dim, &[&str])> = TABLE.iter().map(|(v, p, d, s)| (*v, (*p, *d, *s))).collect();
